@@ -1,5 +1,5 @@
-INIT MCInit
-NEXT MCNext
+INIT ObjInit
+NEXT ObjNext
 CONSTANTS
   Templates = {}
   ResKinds = {}
@@ -11,9 +11,12 @@ CONSTANTS
   OtherForAll = FALSE
   EmptyMeansAll = FALSE
   StatusSucceeds = FALSE
-  AliasCallerSet = FALSE
+  StarWithCreds = FALSE
+  AliasCallerSet = TRUE
   MemoDecision = FALSE
-  StarWithCreds = TRUE
+  KeepHist = FALSE
+  MaxServed = 2
+  MaxMut = 1
 INVARIANT OnlyAllowedOrigins
 INVARIANT NoOriginUntouched
 INVARIANT GrantIsEchoOrStar
@@ -22,5 +25,5 @@ INVARIANT NoWildcardWithCredentials
 INVARIANT PreflightOnlyOnSuccessWithAllow
 INVARIANT AllowRemovedOnPreflight
 INVARIANT DeniedPreflightWithdrawsGrants
-INVARIANT NoApprovalAfterRaise
 INVARIANT AllowOtherwiseKept
+INVARIANT GrantFunctionOfConfigAndRequest
